@@ -73,6 +73,15 @@ type hProfile struct {
 	emptyPartial bool
 	// bigInserts: some insertMany steps insert 13-20 documents with ties
 	bigInserts bool
+	// delOnly: percentage (x2) of bulk writes that consist of deletes only
+	delOnly int
+}
+
+func (p *hProfile) delOnlyPct() int {
+	if p.delOnly > 0 {
+		return p.delOnly
+	}
+	return 10
 }
 
 var allNS = []string{"d1.c1", "d1.c1", "d1.c1", "d1.c2", "d2.c1"}
@@ -552,7 +561,7 @@ func (p *hProfile) genStep(t *rapid.T, view *hView) bson.D {
 	case "bulkWrite":
 		n := rapid.IntRange(1, 4).Draw(t, "nmodels")
 		ms := bson.A{}
-		if docs := view.allDocs(ns); len(docs) > 0 && rapid.IntRange(0, 999).Draw(t, "delonly")%10 == 4 {
+		if docs := view.allDocs(ns); len(docs) > 0 && rapid.IntRange(0, 999).Draw(t, "delonly")%100 >= 50 && rapid.IntRange(0, 999).Draw(t, "delonly2")%100 < 50+p.delOnlyPct() {
 			// a bulk whose only effective items are deletes
 			for i := 0; i < n; i++ {
 				d := rapid.SampledFrom(docs).Draw(t, "deld")
